@@ -4,7 +4,7 @@
 #
 # cfg = <cache>_<sse|nosse>_<cache|ts>_<seq|omp>[_asan|_tsan][_cap]
 #   cache: host (32768:1310720:56623104) small (4096:32768:65536) mid (32768:262144:1048576)
-#          c128 (8192:65536:131072) c256 (16384:131072:262144) c4m (16384:524288:4194304)
+#          c128 (8192:65536:131072) c256 (16384:131072:262144) c4m (16384:524288:4194304) tiny (1024:2048:4096, model binding only)
 #   cache|ts: block+header caches on / --enable-thread-safe
 #   _asan: clang ASan+UBSan   _tsan: gcc TSan   _cap: reduced allocator capacities (hook H4)
 # The guard M4RI_VERIF is always ON here (MANIFEST.hooks.enable); VERIF_NOHOOKS=1 turns it off.
@@ -23,6 +23,9 @@ case $cache in
   c128)  L1=8192;  L2=65536;   L3=131072;;
   c256)  L1=16384; L2=131072;  L3=262144;;
   c4m)   L1=16384; L2=524288;  L3=4194304;;
+  # below the range of real machines (the properties do not quantify over it): used only to bind the recursive models to
+  # the code on matrices small enough for TLC (PLE recursion above 512 words, TRSM recursion above 64 rows, Strassen cutoff 128)
+  tiny)  L1=1024;  L2=2048;    L3=4096;;
   *) echo "bad cache $cache"; exit 2;;
 esac
 case $sse in sse) SSE=1;; nosse) SSE=0;; *) echo "bad sse"; exit 2;; esac
